@@ -164,6 +164,102 @@ def delegation(m: FnModel, rep, rule: str, relpath: str, target: str, want: Dict
               f'`{m.returns[0].value if m.returns else None}`{why}', f'{f.name} -> {target}')
 
 
+def _atoms_of(f) -> List[ast.AST]:
+    if f[0] == 'atom':
+        return [f[1]]
+    if f[0] in ('not', 'and', 'or'):
+        return [a for x in f[1:] for a in _atoms_of(x)]
+    return []
+
+
+def cell_stream(m: FnModel, e: ast.AST, depth: int = 8):
+    """(element, filters) of an iterable over grid cells, both written over the position
+    variable P: `G.area.positions()` is (P, []); a comprehension / generator over a stream
+    substitutes its target; `map(G.__getitem__, S)` and `map(lambda p: .., S)` substitute the
+    function.  None when `e` is not such a stream."""
+    import copy
+    from ..inline import _Rename
+    if depth < 0:
+        return None
+    w = m.walk
+    if isinstance(e, ast.Name):
+        d = w.single_def(e.id)
+        if d is None or d[0] != 'value':
+            return None
+        return cell_stream(m, d[1], depth - 1)
+    if isinstance(e, ast.Call) and isinstance(e.func, ast.Attribute) and \
+            e.func.attr == 'positions' and not e.keywords and \
+            (not e.args or src(e.args[0]) == "'all'"):
+        base = w.expand(e.func.value, m.ren)
+        if isinstance(base, ast.Attribute) and base.attr == 'area':
+            return ast.Name('P', ast.Load()), [], src(base.value)
+        return None
+    if isinstance(e, (ast.GeneratorExp, ast.ListComp)) and len(e.generators) == 1:
+        g = e.generators[0]
+        inner = cell_stream(m, g.iter, depth - 1)
+        if inner is None or not isinstance(g.target, ast.Name):
+            return None
+        elt0, fl0, base = inner
+
+        class Sub(ast.NodeTransformer):
+            def visit_Name(self, n):
+                return copy.deepcopy(elt0) if n.id == g.target.id else n
+        conv = lambda x: Sub().visit(copy.deepcopy(x))
+        return conv(e.elt), fl0 + [conv(c) for c in g.ifs], base
+    if isinstance(e, ast.Call) and src(e.func) == 'map' and len(e.args) == 2 and not e.keywords:
+        inner = cell_stream(m, e.args[1], depth - 1)
+        if inner is None:
+            return None
+        elt0, fl0, base = inner
+        f = e.args[0]
+        if isinstance(f, ast.Name):
+            d = w.single_def(f.id)
+            f = d[1] if d is not None and d[0] == 'value' else f
+        if isinstance(f, ast.Attribute) and f.attr == '__getitem__':
+            return ast.Subscript(f.value, elt0, ast.Load()), fl0, base
+        if isinstance(f, ast.Lambda) and len(f.args.args) == 1 and not f.args.defaults:
+            p = f.args.args[0].arg
+
+            class SubL(ast.NodeTransformer):
+                def visit_Name(self, n):
+                    return copy.deepcopy(elt0) if n.id == p else n
+            return SubL().visit(copy.deepcopy(f.body)), fl0, base
+        return None
+    return None
+
+
+def first_of_stream(m: FnModel, e: ast.AST):
+    """normal form of `next(S)`, `next(S).attr`, `next(iter(S))`: (element text, filter texts)
+    over the position variable P, with the roles renamed; None when not of that form"""
+    attrs = []
+    w = m.walk
+    for _ in range(6):
+        if isinstance(e, ast.Name):
+            d = w.single_def(e.id)
+            if d is None or d[0] != 'value':
+                return None
+            e = d[1]
+        elif isinstance(e, ast.Attribute):
+            attrs.append(e.attr)
+            e = e.value
+        else:
+            break
+    if not (isinstance(e, ast.Call) and src(e.func) == 'next' and len(e.args) == 1
+            and not e.keywords):
+        return None
+    arg = e.args[0]
+    if isinstance(arg, ast.Call) and src(arg.func) == 'iter' and len(arg.args) == 1:
+        arg = arg.args[0]
+    st = cell_stream(m, arg)
+    if st is None:
+        return None
+    elt, filters, _base = st
+    for a in reversed(attrs):
+        elt = ast.Attribute(elt, a, ast.Load())
+    ex = lambda x: src(m.walk.expand(x, m.ren, stop=['P']))
+    return ex(elt), [ex(c) for c in filters]
+
+
 def closer_table(m: FnModel, rep, rule: str) -> None:
     """getting_closer / getting_closer_shortest_path: the returned value is selected by the
     order of two distance terms which are one and the same expression D evaluated in the
@@ -438,11 +534,23 @@ def run(index: RepoIndex, rep) -> None:
         return 'reward_good' if w.vals[eqs[0]] else 'reward_bad'
     table(m, rep, 'C12.R1', REWARD, spec_mem, [f'isinstance({NCELL}, Exit)'],
           'memory reward is not good iff the exit\'s colour matches the beacon')
-    beacon = [src(a) for r in m.returns for a in ast.walk(r.value_node or ast.Constant(0))
-              if False]
-    texts = ' '.join(show(r.guard) for r in m.returns)
-    rep.check('Beacon' in texts and 'S.grid' not in texts, 'C12.R2', REWARD,
-              'reach_exit_memory', m.func.node.lineno, texts[:200],
+    # the colour compared with the exit's: `next(...)` over the cells of the NEXT state's grid,
+    # in positions() order, filtered to Beacons, projected to the colour
+    others = []
+    for r in m.returns:
+        for a in _atoms_of(r.guard):
+            if isinstance(a, ast.Compare) and len(a.ops) == 1 and \
+                    isinstance(a.ops[0], (ast.Is, ast.Eq, ast.IsNot, ast.NotEq)):
+                l, rr = a.left, a.comparators[0]
+                if src(l) == f'{NCELL}.color':
+                    others.append(rr)
+                elif src(rr) == f'{NCELL}.color':
+                    others.append(l)
+    streams = [first_of_stream(m, o) for o in others]
+    want = ('N.grid[P].color', ['isinstance(N.grid[P], Beacon)'])
+    rep.check(bool(others) and all(st == want for st in streams), 'C12.R2', REWARD,
+              'reach_exit_memory', m.func.node.lineno,
+              '; '.join(src(o) for o in others)[:200] + f' -> {streams[:1]}',
               'the colour compared with the exit is not that of a Beacon of the next state',
               'beacon of N')
 
